@@ -57,5 +57,7 @@ SEEDED = [
     ("C16-9", "C16-BYTES"),
     ("C16-10", "C16-ATT"),
     ("C16-11", "C16-ORDER"),
+    ("C16-12", "C16-SEP"),
+    ("C16-13", "C16-ROUTE"),
 ]
 MUTANTS = list(MUTANTS) + [_P("seed-" + sid, _os.path.join(_SEEDS, sid, "patch.diff"), rule) for sid, rule in SEEDED if _os.path.exists(_os.path.join(_SEEDS, sid, "patch.diff"))]
